@@ -290,7 +290,10 @@ def world(ctx):
     tk = dict(common, stubfiles=['codec_world.stubs', 'codec_tok.stubs', 'common.stubs'])
     info['world_tk.c'] = ctx.translate(ll, WORLD_ROOTS, 'world_tk.c', **tk)
     info['world_tkng.c'] = ctx.translate(ll, WORLD_ROOTS, 'world_tkng.c', stubs={SYMS['dgroup']: 'st_no_group'}, **tk)
-    info['world_enc.c'] = ctx.translate(ll, WORLD_ROOTS, 'world_enc.c', stubs={'_ZNK4FIX811MessageBase6encodeEPc': 'st_mb_encode'}, **common)
+    # encoder world (C02 framing): sub-encoders and fmt_chksum cut; pointer differences / comparisons stay pointer operations (ir2c --ptrdiff --ptrcmp):
+    # msgLen = msg - moffs through uintptr_t values is opaque to CBMC's constant propagation, and with it hlen and every later store offset
+    info['world_enc.c'] = ctx.translate(ll, WORLD_ROOTS, 'world_enc.c', stubs={'_ZNK4FIX811MessageBase6encodeEPc': 'st_mb_encode', '_ZN4FIX87Message10fmt_chksumB5cxx11Ej': 'st_fmt_chksum'},
+                                        opts=['--ptrcmp', '--ptrdiff'], **common)
     tabcheck(ctx)
     ctx._codec_world = info
     return info
@@ -312,7 +315,8 @@ def us_decode(ntok, harness_loops=('main', 'run'), extra=(), maxcopy=None):
            'TK_render.0:%d' % max(ntok + 3, 13), 'TK_render.1:%d' % max(ntok + 3, 13), 'st_extract_element.0:%d' % max(ntok + 3, 10), 'st_extract_element.1:%d' % max(ntok + 3, 10), 'st_extract_element.2:%d' % max(ntok + 3, 10), 'st_extract_element.3:%d' % max(ntok + 3, 10),
            '_ZN4FIX89fast_atoiItEET_PKcc.0:7', '_ZN4FIX89fast_atoiIjEET_PKcc.0:9', '_ZN4FIX89fast_atoiIiEET_PKcc.0:9']
     us += ['%s.%d:29' % (M_FILL, i) for i in range(4)] + ['%s.%d:6' % (SYMS['dgroup'], i) for i in range(6)]
-    return us + list(extra)
+    over = set(e.rsplit(':', 1)[0] for e in extra)          # an explicit bound replaces the default for that loop
+    return [u for u in us if u.rsplit(':', 1)[0] not in over] + list(extra)
 
 def tok_harness(ctx, name, *, perm=0, nx=3, pres=0, drop=0, ng=0, gpres=0, defs=(), tokcut=True, tier='quick', extra_defs=(), timeout=900, cfile='C04_tok.c', pid='C04', object_bits=None):
     """one query of the token-level driver (harness/C04_tok.c)"""
